@@ -332,7 +332,10 @@ def fingerprint(seq) -> tuple:
     except Exception as e:  # noqa: BLE001
         ar = "abstract-raised:" + type(e).__name__
     vals = tuple((n, v._count if False else None) for n, v in sorted(seq.declared_variables.items()))
-    return (snap.calls, snap.flags["parametrized"], snap.flags["declared"], s, hashlib.sha256(ar.encode()).hexdigest(), vals)
+    # the qubit ids the template knows (a partial mapping at build time concerns the
+    # built sequence only)
+    known = tuple(sorted(str(q) for q in getattr(seq, "_qids", ())))
+    return (snap.calls, snap.flags["parametrized"], snap.flags["declared"], s, hashlib.sha256(ar.encode()).hexdigest(), vals, known)
 
 
 def _canon_json(o):
@@ -737,12 +740,14 @@ def gen_history(rng: random.Random, world: dict, profile: dict) -> list:
     na = len(world["assignments"])
     nm = len(world.get("mappings", [])) or 1
     n = rng.randint(5, profile.get("hist_len", 10))
-    kinds = profile.get("hist_kinds", {"build": 8, "bad": 2, "str": 1, "abstract": 1, "sibling": 2, "restart": 1, "cache": 0.5})
+    kinds = profile.get("hist_kinds", {"build": 8, "pair": 2, "bad": 2, "str": 1, "abstract": 1, "sibling": 2, "restart": 1, "cache": 0.5})
     hist = [{"op": "t_build", "i": 0, "m": 0}]
     for _ in range(n):
         k = G.wpick(rng, kinds)
         if k == "build":
             hist.append({"op": "t_build", "i": rng.randrange(na), "m": rng.randrange(nm)})
+        elif k == "pair":
+            hist.append({"op": "t_build_pair", "i": rng.randrange(na), "j": rng.randrange(na), "m": rng.randrange(nm)})
         elif k == "bad":
             hist.append({"op": "t_build_bad", "kind": G.pick(rng, ["missing", "size", "invalid-n", "invalid-a", "extra"]), "i": rng.randrange(na), "m": rng.randrange(nm)})
         elif k == "str":
@@ -811,6 +816,8 @@ class TemplateRun:
             kb, kd = seq_key(B), seq_key(D)
             # sequences handed out by EARLIER builds are the caller's: a new build
             # must not change them
+            if getattr(self, "kept", None):
+                observe.reset_run_caches()  # digests are cached per pulse OBJECT: look at the samples again
             for (B0, k0, v0_) in getattr(self, "kept", []):
                 if not keys_close(seq_key(B0), k0):
                     self.viol(f"{label}/earlier-build-changed", step, f"the sequence returned by build({v0_}) changed when the template was built again with {vals}")
@@ -827,7 +834,7 @@ class TemplateRun:
     def check_template_unchanged(self, step, after):
         fp = fingerprint(self.tw.T)
         if fp != self.fp:
-            what = [n for n, a, b in zip(("call log", "parametrized flag", "declared channels", "str()", "abstract repr", "variables"), fp, self.fp) if a != b]
+            what = [n for n, a, b in zip(("call log", "parametrized flag", "declared channels", "str()", "abstract repr", "variables", "known qubit ids"), fp, self.fp) if a != b]
             self.viol("C08/template-changed", step, f"the template changed during {after}: {', '.join(what)}")
             self.fp = fp
 
@@ -847,6 +854,19 @@ class TemplateRun:
                 self.stats["probe/repeated_build"] += 1
             self.results[rk] = key
             self.check_template_unchanged(i, "build")
+        elif k == "t_build_pair":
+            # two builds back to back; the FIRST result is only looked at after the
+            # second build (anything it still shares with the template would have
+            # been overwritten by then)
+            v1, v2, qubits = self._vals(op["i"]), self._vals(op["j"]), self._qubits(op["m"])
+            B1, e1 = self._build(T, v1, qubits)
+            B2, e2 = self._build(T, v2, qubits)
+            if e1 is None:
+                D1, d1 = self.tw.direct(v1, qubits, self.mask)
+                self.stats["probe/build_pair"] += 1
+                if d1 is None and not keys_close(seq_key(B1), seq_key(D1)):
+                    self.viol("C08/earlier-build-changed", i, f"build({v1}) followed by build({v2}): the first sequence no longer equals its direct construction: {key_diff(seq_key(B1), seq_key(D1))}")
+            self.check_template_unchanged(i, "two successive builds")
         elif k == "t_build_bad":
             vals, qubits = self._vals(op["i"]), self._qubits(op["m"])
             kind = op["kind"]
